@@ -151,7 +151,7 @@ pub fn models() -> &'static Vec<Model> {
             "Annot",
             Annot,
             true,
-            vec![req("Subtype", vec![n("Link"), n("Text")]), opt("Rect", vec![rect(), Val::Array(vec![rl("-2147483649.0"), i(0), rl("99999999999.0"), i(1)])]), opt("Contents", vec![s("note")]), opt("NM", vec![s("id-1")]), opt("M", vec![date()]), dflt("F", i(0), vec![i(4)]), opt("AS", vec![n("On")]), opt("Border", vec![Val::ints(&[0, 0, 1])]), opt("C", vec![Val::Array(vec![i(1), rl("0.5"), i(0)])]), opt("InkList", vec![Val::Array(vec![Val::ints(&[1, 2, 3, 4])])]), opt("Type", vec![n("Annot")])]
+            vec![req("Subtype", vec![n("Link"), n("Text")]), opt("Rect", vec![rect(), Val::Array(vec![rl("-2147483649.0"), i(0), rl("99999999999.0"), i(1)])]), opt("Contents", vec![s("note")]), opt("NM", vec![s("id-1")]), opt("M", vec![date()]), dflt("F", i(0), vec![i(4)]), opt("AS", vec![n("On")]), opt("Border", vec![Val::ints(&[0, 0, 1])]), opt("C", vec![Val::Array(vec![i(1), rl("0.5"), i(0)]), Val::Array(vec![]), Val::Array(vec![Val::Null, i(1)])]), opt("InkList", vec![Val::Array(vec![Val::ints(&[1, 2, 3, 4])])]), opt("Type", vec![n("Annot")])]
         );
         model!(
             "FieldDictionary",
@@ -219,7 +219,7 @@ pub fn models() -> &'static Vec<Model> {
             "GraphicsStateParameters",
             GraphicsStateParameters,
             true,
-            vec![opt("LW", vec![i(2), rl("0.5"), rl("4294967296.0"), rl("-0.001")]), opt("LC", vec![i(0), i(1), i(2)]), opt("LJ", vec![i(0), i(1), i(2)]), opt("ML", vec![i(10), rl("-3000000000.0"), rl("16777217.0")]), opt("D", vec![Val::Array(vec![Val::ints(&[3, 1]), i(0)])]), opt("RI", vec![n("Perceptual")]), opt("OP", vec![Val::Bool(true)]), opt("op", vec![Val::Bool(false)]), opt("OPM", vec![i(1)]), opt("Font", vec![Val::Array(vec![Val::r(9), i(12)])]), opt("BM", vec![n("Multiply"), Val::Array(vec![n("Screen"), n("Normal")])]), opt("SMask", vec![n("None")]), opt("CA", vec![rl("0.5"), rl("1e10".replace("1e10", "10000000000.0").as_str())]), opt("ca", vec![i(1)]), opt("AIS", vec![Val::Bool(true)]), opt("TK", vec![Val::Bool(false)]), opt("Type", vec![n("ExtGState")])]
+            vec![opt("LW", vec![i(2), rl("0.5"), rl("4294967296.0"), rl("-0.001")]), opt("LC", vec![i(0), i(1), i(2)]), opt("LJ", vec![i(0), i(1), i(2)]), opt("ML", vec![i(10), rl("-3000000000.0"), rl("16777217.0")]), opt("D", vec![Val::Array(vec![Val::ints(&[3, 1]), i(0)]), Val::Array(vec![Val::Array(vec![]), i(0)]), Val::Array(vec![Val::ints(&[3, 1]), Val::Null, i(0)]), Val::Array(vec![])]), opt("RI", vec![n("Perceptual")]), opt("OP", vec![Val::Bool(true)]), opt("op", vec![Val::Bool(false)]), opt("OPM", vec![i(1)]), opt("Font", vec![Val::Array(vec![Val::r(9), i(12)])]), opt("BM", vec![n("Multiply"), Val::Array(vec![n("Screen"), n("Normal")])]), opt("SMask", vec![n("None")]), opt("CA", vec![rl("0.5"), rl("1e10".replace("1e10", "10000000000.0").as_str())]), opt("ca", vec![i(1)]), opt("AIS", vec![Val::Bool(true)]), opt("TK", vec![Val::Bool(false)]), opt("Type", vec![n("ExtGState")])]
         );
         model!("Resources", Resources, true, vec![opt("ExtGState", vec![Val::dict(vec![("GS1", Val::dict(vec![("LW", i(1))]))])]), opt("ColorSpace", vec![]), opt("Pattern", vec![Val::dict(vec![("P1", Val::r(4))])]), opt("XObject", vec![Val::dict(vec![("Im1", Val::r(5))])]), opt("Font", vec![Val::dict(vec![("F1", Val::r(6))])]), opt("Properties", vec![Val::dict(vec![("MC0", Val::dict(vec![("K", i(1))]))])])]);
         model!("PatternDict", PatternDict, true, vec![opt("PaintType", vec![i(1)]), opt("TilingType", vec![i(2)]), req("BBox", vec![rect(), Val::Array(vec![rl("-3000000000.0"), i(0), rl("3000000000.0"), rl("0.25")])]), req("XStep", vec![i(4), rl("4.5"), rl("2147483648.0")]), req("YStep", vec![i(4)]), req("Resources", vec![Val::r(3)]), opt("Matrix", vec![Val::Array(vec![i(1), i(0), i(0), i(1), rl("0.5"), i(0)])])]);
